@@ -377,6 +377,29 @@ func successReturns(r *Result, errIdx int) []*ssa.Return {
 	return out
 }
 
+// maySucceed: some reachable return hands back an error variable that is nil on at least one executable way in (the
+// single-exit form `return txt, l, err` with err set only by the failing branch).
+func maySucceed(r *Result, errIdx int) bool {
+	for _, ret := range r.Returns {
+		if errIdx >= len(ret.Results) {
+			continue
+		}
+		phi, ok := ret.Results[errIdx].(*ssa.Phi)
+		if !ok {
+			continue
+		}
+		for i, e := range phi.Edges {
+			if i < len(phi.Block().Preds) && r.Edge != nil && !r.Edge[[2]int{phi.Block().Preds[i].Index, phi.Block().Index}] {
+				continue
+			}
+			if r.isNil(e) {
+				return true
+			}
+		}
+	}
+	return false
+}
+
 // lenTerm gives the canonical term of a length result under a specialisation.
 func lenTerm(r *Result, v ssa.Value, f *ssa.Function) string {
 	t := newTB(r)
@@ -394,7 +417,7 @@ func (cd *codec) handledTypes(f *ssa.Function, errIdx int) map[int64]bool {
 	out := map[int64]bool{}
 	for t := int64(0); t < 256; t++ {
 		r := cd.follow(Specialize(f, cd.bind(f, spec{t, -1}), cd.tables), cd.paramNames(f), 0)
-		if len(successReturns(r, errIdx)) > 0 {
+		if len(successReturns(r, errIdx)) > 0 || maySucceed(r, errIdx) {
 			out[t] = true
 		}
 	}
